@@ -84,7 +84,8 @@ func encode(c *caseJ) []byte {
 // ---- configurations ------------------------------------------------------------------------------
 
 var singles = []string{"~", "'", "*", "+", ":", "^", "|", "!", "?", "\\", "#", "$", "&", "<", ">", "=", ";", ",", "\x1c", "\x1d", "\x1e", "\x1f", "\n"}
-var multis = []string{"~\n", "'\r\n", "\r\n", "<>", "|-", "*.", "::=", "%%", "ab", "¦", "€", "§", "→", "😀", "€\n", "¦x"}
+var multis = []string{"~\n", "'\r\n", "\r\n", "<>", "|-", "*.", "::=", "%%", "ab", "~\r\n", "+-", "^_^", "$1", "#x"}
+var multisUTF8 = []string{"¦", "€", "§", "→", "😀", "€\n", "¦x"}
 
 // inDomain: the side condition under which the encoding round-trips (what edi_roundtrip assumes,
 // with "first byte is ASCII" relaxed to "first rune decodes"): every delimiter / the release
@@ -126,6 +127,8 @@ func pickSpecial(r *vh.Rng, segRole bool) []byte {
 			s = "*"
 		}
 		return []byte(s)
+	case r.Chance(0.25):
+		return []byte(multisUTF8[r.Pick(len(multisUTF8))])
 	default:
 		return []byte(multis[r.Pick(len(multis))])
 	}
@@ -189,6 +192,10 @@ func genCfgOK(r *vh.Rng) (cfgJ, bool) {
 		return cfgJ{Seg: hx(seg), Elem: hx(elem), Comp: hxp(comp, hasComp), Rep: hxp(rep, hasRep), Rel: hxp(rel, hasRel), IgnoreCRLF: ignore}, ascii
 	}
 }
+
+// bufSize is the scanner's initial buffer size (edi.ReaderBufSize, 128 in /repo); long values are
+// sized against it so that tokens outgrow the buffer.
+var bufSize = 128
 
 // ---- payloads --------------------------------------------------------------------------------
 
@@ -290,7 +297,7 @@ func genOK(r *vh.Rng) *caseJ {
 		longAt := -1
 		longN := 0
 		if r.Chance(0.25) {
-			longAt, longN = r.Pick(nel), r.Between(50, 130)
+			longAt, longN = r.Pick(nel), r.Between(bufSize/3, bufSize)
 			if r.Chance(0.08) {
 				longN = r.Between(300, 700)
 			}
@@ -363,7 +370,7 @@ func genDecls(r *vh.Rng, maxElems, maxComps int) []declJ {
 			d.Index = 0
 		}
 		if r.Chance(0.5) {
-			ci := r.Between(1, maxComps+1)
+			ci := []int{1, 1, 2, 2, 3, maxComps + 1}[r.Pick(6)]
 			d.Comp = &ci
 		}
 		if len(ds) > 0 && r.Chance(0.3) {
@@ -371,13 +378,15 @@ func genDecls(r *vh.Rng, maxElems, maxComps int) []declJ {
 			p := ds[r.Pick(len(ds))]
 			d.Index, d.Comp = p.Index, p.Comp
 		}
-		switch r.Pick(5) {
-		case 0:
+		switch r.Pick(8) {
+		case 0, 1:
 			d.EmptyIfMissing = true
-		case 1:
+		case 2, 3, 4:
 			d.Default = hxp([]byte("dflt"), true)
-		case 2:
+		case 5:
 			d.Default = hxp([]byte{}, true)
+		case 6:
+			d.EmptyIfMissing, d.Default = true, hxp([]byte("both"), true)
 		}
 		ds = append(ds, d)
 	}
